@@ -405,6 +405,18 @@ def _decode_immediates(prog: Program, strict_addr_checksum: bool) -> None:
         ins.args = args  # type: ignore
 
 
+def blocking_complaints(prog: Program, mode: str) -> List[str]:
+    """the subset of check_program's complaints that make symbolic execution of the text impossible
+    (unknown opcode, undecodable immediate, undefined label, leaked placeholder).  Version / mode /
+    backward-branch legality is C04's business and does not stop the other checks from executing the program."""
+    out = []
+    for c in check_program(prog, mode):
+        if ("needs version" in c) or ("not available in mode" in c) or ("#pragma version" in c and "not first" not in c):
+            continue
+        out.append(c)
+    return out
+
+
 def check_program(prog: Program, mode: str) -> List[str]:
     """Legality of an emitted program at its #pragma version in `mode` ("S" or "A").
     Returns the list of complaints (empty = the assembler would accept it)."""
